@@ -19,8 +19,10 @@ PromSideOnly(s) == ~RealFailed(s) /\ s.werr # 0
 (* what the harness observed).  o.fwd counts forwarded units; o.prefix says the forwarded     *)
 (* bytes are a prefix of the served (decoded) body, o.exact that they are all of it.          *)
 C12(s, o) ==
-  (~RealFailed(s) /\ ~s.stop /\ s.werr = 0) =>
-     /\ o.status = 200 /\ ~o.aborted /\ o.exact /\ o.ctype
+  /\ (~RealFailed(s) /\ ~s.stop /\ ~s.flip /\ s.werr = 0) =>
+        /\ o.status = 200 /\ ~o.aborted /\ o.exact /\ o.ctype
+  \* whatever else happens: a complete 200 for a real scrape that succeeded carries the exact body
+  /\ (~RealFailed(s) /\ s.werr = 0 /\ o.status = 200 /\ ~o.aborted) => o.exact
 C12Prefix(s, o) == o.prefix
 C13(s, o) ==
   /\ (RealFailed(s) \/ s.stop) => (o.status # 200 \/ o.aborted)
